@@ -361,6 +361,39 @@ pub fn run(ctx: &mut Ctx) {
             }
         }
     }
+    // (1c) extreme numbers that the parser accepts: fixed stamps at the ends of the machine word, stand-alone
+    // budgets / truths at and just outside the range
+    for f in ALL_FMT {
+        let e = f.e();
+        for t in [isize::MIN, isize::MIN + 1, -1, 0, 1, isize::MAX - 1, isize::MAX] {
+            let stamp = format!("{}{}{}{}", e.sentence.stamp_brackets.0, e.sentence.stamp_fixed, t, e.sentence.stamp_brackets.1);
+            for text in [
+                format!("A{} {}", e.sentence.punctuation_judgement, stamp),
+                format!("A{} {}", e.sentence.punctuation_question, stamp),
+                format!("{}0.5{} A{} {} {}1{}0.9{}", e.task.budget_brackets.0, e.task.budget_brackets.1, e.sentence.punctuation_goal, stamp, e.sentence.truth_brackets.0, e.sentence.truth_separator, e.sentence.truth_brackets.1),
+            ] {
+                idx += 1;
+                if ctx.mine(idx) {
+                    probe(ctx, f, &text, "extreme-stamps");
+                }
+            }
+        }
+        for num in ["0", "1", "1.0", "1.5", "2", "-0.5", "1.0000000001", "1e-3", "1e3", "NaN", "inf", "0.99999999999999999999"] {
+            for text in [
+                format!("{}{}{}", e.task.budget_brackets.0, num, e.task.budget_brackets.1),
+                format!("{}0.5{}{}{}", e.task.budget_brackets.0, e.task.budget_separator, num, e.task.budget_brackets.1),
+                format!("{}{}{}", e.sentence.truth_brackets.0, num, e.sentence.truth_brackets.1),
+                format!("{}0.5{}{}{}", e.sentence.truth_brackets.0, e.sentence.truth_separator, num, e.sentence.truth_brackets.1),
+                format!("{}{}", e.task.budget_brackets.0, num),
+                format!("{}{}", e.sentence.truth_brackets.0, num),
+            ] {
+                idx += 1;
+                if ctx.mine(idx) {
+                    probe(ctx, f, &text, "stand-alone-number-lists");
+                }
+            }
+        }
+    }
     // (2) lenient acceptance workload
     let gens: Vec<StrGen> = ALL_FMT.iter().map(|f| StrGen::new(*f)).collect();
     let mut rng = ctx.rng(0xC12);
